@@ -20,6 +20,7 @@ def sample_stats(data, members, n, biased):
 class C12(Check):
     pid = 'C12'
     validate = True
+    fork_logging = True       # DEBUG logging on/off is a symbolic input of every path
     anchors = [('src/fast_ticc/cluster_maintenance.py', 'update_cluster_member_data_statistics'),
                ('src/fast_ticc/cluster_maintenance.py', 'update_all_cluster_statistics'),
                ('src/fast_ticc/graphical_lasso.py', 'optimize_markov_random_fields'),
